@@ -5,7 +5,8 @@ import json, os
 
 VERIF = os.path.dirname(os.path.dirname(os.path.abspath(__file__)))
 BASE_NOTE = ("Trusted base: Go toolchain (go/parser, go/format, go/types, compiler), encoding/json, yaml.v3 and mapstructure as libraries, "
-             "pgregory.net/rapid, the reference oracle (DESIGN.md 1.4) and the verifrt dump runtime. Exploration is sampling: it shows violations, never their absence. ")
+             "pgregory.net/rapid, the reference oracle (DESIGN.md 1.4) and the verifrt dump runtime. Exploration is sampling: it shows violations, never their absence; "
+             "the generators' reach was widened by three adversarial rounds of seeded changes (DESIGN.md section 10), whose first-attempt detection rates (21/40, 9/40, 8/40) are the honest measure of what a check of this kind does not reach unprompted. ")
 
 CLAIMED = {
  "C01": dict(
